@@ -492,6 +492,10 @@ TARGETS = {
     "SrcDist": ("distribution.py", translate_dist),
     "SrcFF": ("forcefield_helper.py", translate_ff),
     "SrcStoch": ("stochastic.py", translate_stoch),
+    "SrcDistLaw": ("distribution.py", translate_sys.translate_distlaw),
+    "SrcCore": ("core.py", translate_sys.translate_core),
+    "SrcGen": ("stochastic.py", translate_sys.translate_gen),
+    "SrcGenerable": ("stochastic.py", translate_sys.translate_generable),
     "SrcSysGen": ("system.py", translate_sys.translate_sysgen),
     "SrcSys": ("system.py", lambda path: translate_sys.translate_sys(path, os.path.join(os.path.dirname(path), "mixture.py"))),
 }
